@@ -185,6 +185,8 @@ pub struct RoleCfg {
     /// behaviour of the n-th start (beyond the end: Ok)
     pub started: Vec<StartBeh>,
     pub started_yields: u8,
+    /// virtual time `started()` takes
+    pub started_sleep: u32,
     /// context operations performed in every `started`
     pub started_actions: Vec<Action>,
     pub stopped_yields: u8,
@@ -203,6 +205,7 @@ impl Default for RoleCfg {
         RoleCfg {
             started: vec![],
             started_yields: 0,
+            started_sleep: 0,
             started_actions: vec![],
             stopped_yields: 0,
             stopped_panic: false,
@@ -686,7 +689,7 @@ impl<const K: u8> Service for Probe<K> {}
 
 impl<const K: u8> Actor for Probe<K> {
     async fn started(&mut self, ctx: &mut Context<Self>) -> DynResult<()> {
-        let (inc, beh, yields, actions) = W.with(|w| {
+        let (inc, beh, yields, actions, start_sleep) = W.with(|w| {
             let mut w = w.borrow_mut();
             let r = self.role as usize;
             let n = w.starts[r];
@@ -697,6 +700,7 @@ impl<const K: u8> Actor for Probe<K> {
                 rc.started.get(n as usize).copied().unwrap_or(StartBeh::Ok),
                 rc.started_yields,
                 rc.started_actions.clone(),
+                rc.started_sleep,
             )
         });
         self.inc = inc;
@@ -706,6 +710,9 @@ impl<const K: u8> Actor for Probe<K> {
         }
         for _ in 0..yields {
             vexec::yield_now().await;
+        }
+        if start_sleep > 0 {
+            sleep(start_sleep).await;
         }
         match beh {
             StartBeh::Ok => {}
